@@ -122,7 +122,9 @@ Ltac vstep_with tac :=
   | |- context [if ?c then _ else _] => destruct c eqn:?
   end; vred_with tac.
 
-Ltac vdone := solve [ reflexivity | eexists; reflexivity ].
+(* a finished branch: both sides agree, or the case is impossible (two comparisons of the same
+   numbers that contradict each other) *)
+Ltac vdone := solve [ reflexivity | eexists; reflexivity | exfalso; lia | exfalso; congruence ].
 
 (* ------------------------------------------------------------------ *)
 (* maybeNilDigest *)
